@@ -251,6 +251,11 @@ def Tables.diff (a b : Tables) : String :=
   else if !rowsEq a.schemas b.schemas then "schemas"
   else ""
 
+/-- `accounts_volumes` as values: `(0,0)` rows dropped (a zero row equals the empty fold). -/
+def Tables.normVols (t : Tables) : Tables :=
+  { t with vols := t.vols.filter fun e =>
+      !((optStrField e.2 "in") == "0" && (optStrField e.2 "out") == "0") }
+
 def Tables.toJson (t : Tables) : Json :=
   Json.mkObj [("txs", Json.arr (t.txs.map (·.2)).toArray), ("accounts", Json.arr (t.accounts.map (·.2)).toArray),
     ("vols", Json.arr (t.vols.map (·.2)).toArray), ("logs", Json.arr (t.logs.map (·.2)).toArray),
